@@ -60,7 +60,7 @@ func (m *Manager) SyncLoop(ctx context.Context, errCh chan<- error) {
 			m.handleEmptyDataHash(ctx, &header.Header)
 
 			if err = m.trySyncNextBlock(ctx, daHeight); err != nil {
-				errCh <- fmt.Errorf("failed to sync next block: %w", err)
+				reportError(ctx, errCh, fmt.Errorf("failed to sync next block: %w", err))
 				return
 			}
 
@@ -101,7 +101,7 @@ func (m *Manager) SyncLoop(ctx context.Context, errCh chan<- error) {
 
 			err = m.trySyncNextBlock(ctx, daHeight)
 			if err != nil {
-				errCh <- fmt.Errorf("failed to sync next block: %w", err)
+				reportError(ctx, errCh, fmt.Errorf("failed to sync next block: %w", err))
 				return
 			}
 			m.dataCache.SetSeen(dataSeenKey(dataHash, dataHeight))
